@@ -14,7 +14,7 @@ normalisation tables.
 from .. import sym, table
 from ..sym import show
 from ..table import Row, lt, le, eq, ne, Int
-from .c05 import single_call, _is_norm_pattern, _result_map, tail, head, _cmp
+from .c05 import single_call, _is_norm_pattern, _result_map, tail, head, _cmp, CHAR_OPAQUE
 
 M = "konst::slice::slice_const_methods::"
 S = "konst::string::"
@@ -213,7 +213,7 @@ def wrappers(ctx, prog):
     for n in ("find_skip", "find_keep", "rfind_skip", "rfind_keep"):
         rows.append((M + "bytes_" + n, M + "__bytes_" + n, "same"))
         rows.append((S + n, M + "__bytes_" + n, "opt_str"))
-    opaque = {M + x for x in FAMILY} | {"konst_kernel::string::__from_u8_subslice_of_str"}
+    opaque = {M + x for x in FAMILY} | {"konst_kernel::string::__from_u8_subslice_of_str"} | CHAR_OPAQUE
     # __bytes_rcontain re-enters the public generic bytes_rfind with P = [u8]; its body is a row of its own
     rows = [(fn, (M + "bytes_rfind" if fn == M + "bytes_rcontain" else callee), kind) for fn, callee, kind in rows]
     opaque.add(M + "bytes_rfind")
